@@ -112,6 +112,30 @@ def refusal_of(fn, call_pred, what):
     U("%s: enclosing try does not handle KeyError" % what)
 
 
+def yourref_refusal(yr):
+    """YourReferenceUnslicer.receiveClose: what an id the table does not hold leads to.
+      `obj = self.broker.getMyReferenceByCLID(self.clid)` outside any try            -> AbortR (KeyError escapes: connection dropped)
+      inside `try ... except KeyError: raise Violation(...)`                          -> RejectR
+      inside `try: obj = <lookup> except KeyError: obj = None`, and the statement that follows the try is
+      `if not obj: raise Violation(...)` (None is falsy, so that raise is reached on exactly this path)  -> RejectR
+    anything else fails closed"""
+    pred = lambda c: is_method_call(c, "getMyReferenceByCLID")
+    tries = enclosing_try(yr, pred)
+    if tries:
+        t = tries[-1]
+        if len(t.handlers) == 1 and t.handlers[0].type is not None and ast.unparse(t.handlers[0].type) == "KeyError" \
+                and t.handlers[0].name is None and [ast.unparse(x) for x in t.handlers[0].body] == ["obj = None"] \
+                and [ast.unparse(x) for x in t.body] == ["obj = self.broker.getMyReferenceByCLID(self.clid)"] \
+                and not t.orelse and not t.finalbody and t in yr.body:
+            nxt = yr.body[yr.body.index(t) + 1:]
+            if nxt and isinstance(nxt[0], ast.If) and ast.unparse(nxt[0].test) == "not obj" and not nxt[0].orelse \
+                    and len(nxt[0].body) == 1 and isinstance(nxt[0].body[0], ast.Raise) and nxt[0].body[0].exc is not None \
+                    and ast.unparse(nxt[0].body[0].exc).startswith("Violation("):
+                return "RejectR"
+            U("YourReferenceUnslicer.receiveClose: `except KeyError: obj = None` is not followed by `if not obj: raise Violation(...)`")
+    return refusal_of(yr, pred, "YourReferenceUnslicer.receiveClose")
+
+
 def is_method_call(c, attr):
     return isinstance(c.func, ast.Attribute) and c.func.attr == attr
 
@@ -168,16 +192,23 @@ def generate():
         # nothing else may assign self._interface
         asg = [ast.unparse(n) for n in ast.walk(gi) if isinstance(n, ast.Assign) and "self._interface" in [ast.unparse(t) for t in n.targets]]
         ok = asg == ["self._interface = getRemoteInterface(self)"]
+    per_class = False
     if not ok:
-        U("Referenceable.getInterface no longer computes getRemoteInterface(self) for the instance itself")
+        # a lookup keyed by the CLASS (self.__class__ / type(self)) is recognised as such: the model then ignores declarations on
+        # the instance (C06_instance_interface_enforced no longer holds: the proof breaks; the oracle finds the input)
+        gsrc = ast.unparse(gi)
+        if ("self.__class__" in gsrc or "type(self)" in gsrc) and "getRemoteInterface(self)" in gsrc:
+            per_class = True
+        else:
+            U("Referenceable.getInterface no longer computes getRemoteInterface(self) for the instance itself")
     rim = P.load("remoteinterface.py")
     gri = P.find_def(rim, "getRemoteInterface")
     frags(gri, "getRemoteInterface", ["interfaces = list(providedBy(obj))", "isinstance(i, RemoteInterfaceClass)", "return ilist[0]", "return None"])
     if not any(isinstance(x, ast.ImportFrom) and x.module == "zope.interface" and any(a.name == "providedBy" for a in x.names) for x in rim.body) \
             and "providedBy" not in [getattr(x, "id", None) for x in ast.walk(rim)]:
         U("remoteinterface.py: providedBy is not zope.interface.providedBy")
-    out.append("Inductive iface_lookup := PerInstance.")
-    out.append("Definition interface_lookup : iface_lookup := PerInstance.  (* getInterface(): getRemoteInterface(self), per instance *)")
+    out.append("Inductive iface_lookup := PerInstance | PerClass.   (* getRemoteInterface(self) for each instance | an answer cached per class *)")
+    out.append("Definition interface_lookup : iface_lookup := %s." % ("PerClass" if per_class else "PerInstance"))
 
     # ---- broker.py
     bm = P.load("broker.py")
@@ -204,8 +235,7 @@ def generate():
     out.append("Definition call_unknown_clid : refusal := %s." %
                refusal_of(rc, lambda c: is_method_call(c, "getMyReferenceByCLID"), "CallUnslicer.receiveChild"))
     yr = P.find_def(rm, "YourReferenceUnslicer.receiveClose")
-    out.append("Definition yourref_unknown_clid : refusal := %s." %
-               refusal_of(yr, lambda c: is_method_call(c, "getMyReferenceByCLID"), "YourReferenceUnslicer.receiveClose"))
+    out.append("Definition yourref_unknown_clid : refusal := %s." % yourref_refusal(yr))
     yc = P.find_def(rm, "YourReferenceUnslicer.checkToken")
     if [ast.unparse(x) for x in body_nodoc(yc)] != ["if typebyte != tokens.INT:\n    raise BananaError('your-reference ID must be an INT')"]:
         U("YourReferenceUnslicer.checkToken changed")
@@ -397,12 +427,9 @@ def generate():
     out.append("Definition handler_answers_cached : bool := %s.  (* does a handler's answer enter Tub.nameToReference? *)"
                % ("true" if cached else "false"))
     out.append("Definition name_lookup_shape : bool := true.  (* table first, then handlers in order, else KeyError *)")
-    an = P.find_def(pm, "Tub._assignName")
-    want = ["if not self.locationHints:\n    return None", "if ref in self.referenceToName:\n    return self.referenceToName[ref]",
-            "name = preferred_name", "if not name:\n    name = self.generateSwissnumber(self.NAMEBITS)",
-            "self.referenceToName[ref] = name", "self.nameToReference[name] = ref", "return name"]
-    if [ast.unparse(s) for s in body_nodoc(an)] != want:
-        U("Tub._assignName changed")
+    # Tub._assignName is translated statement by statement by translate/g_reachdisp.py (gen_assign_name) and proved equal to the
+    # model's assign_name for all inputs (C06_translated_assign_name); only its existence is checked here
+    P.find_def(pm, "Tub._assignName")
     tc = P.find_class(pm, "Tub")
     consts = P.module_consts(pm, body=tc.body)
     if not isinstance(consts.get("NAMEBITS"), int):
